@@ -8,3 +8,4 @@ import GoFlags.Props.C07
 #print axioms GoFlags.C07.other_errors_always_stop
 #print axioms GoFlags.C07.handler_result_is_parsed_next
 #print axioms GoFlags.C07.handler_events_only
+#print axioms GoFlags.C07.ignored_unknown_options_pass_through_in_place
